@@ -58,8 +58,8 @@ func c04Typed(ctx *core.Ctx, idx int) core.Result {
 
 func init() {
 	register(&core.Property{
-		ID: "C04",
-		Rule: "(1) name-pressure sessions: 2..5 names used at once as global, parameter, local initialised from the outer variable (the README's a = a+1 pattern), fresh local, for-variable and captured variable across functions nested up to 3 levels (the third level must not see the first level's variables); every function writes all visible names on entry/middle, snapshots them before and after every call it makes (DIFF marker if a call changed them), updates a captured variable and calls the closure again (sharing until return), and lets closures escape directly, inside an array or inside an array of arrays; escaped closures are dug out and called after deep recursion overwrote the dead frames; (2) typed sessions with local functions, higher-order parameters and returned closures; both with the complete global frame compared with the reference after every statement, REPL/script mode, plain/tight/pregrown allocation. non-trivial = >= 2 functions and >= 2 calls; distinct by session and mode.",
+		ID:          "C04",
+		Rule:        "(1) name-pressure sessions: 2..5 names used at once as global, parameter, local initialised from the outer variable (the README's a = a+1 pattern), fresh local, for-variable and captured variable across functions nested up to 3 levels (the third level must not see the first level's variables); every function writes all visible names on entry/middle, snapshots them before and after every call it makes (DIFF marker if a call changed them), updates a captured variable and calls the closure again (sharing until return), and lets closures escape directly, inside an array or inside an array of arrays; escaped closures are dug out and called after deep recursion overwrote the dead frames; (2) typed sessions with local functions, higher-order parameters and returned closures; both with the complete global frame compared with the reference after every statement, REPL/script mode, plain/tight/pregrown allocation. non-trivial = >= 2 functions and >= 2 calls; distinct by session and mode.",
 		Assumptions: []string{"names are declared (parameter or first statements) before any loop of the function body, so static and dynamic lookup order cannot differ (DESIGN.md 4.3 rule 1)"},
 		Families: []core.Family{
 			{Name: "corpus", Count: func(string) int { return len(corpusSessions()) * 2 * len(stressModes) }, Run: func(_ *core.Ctx, idx int) core.Result { return corpusCase("C04", idx, true) }},
